@@ -11,6 +11,7 @@ structure Lay.Ok (l : Lay) : Prop where
   fits : l.eod < 2147483648
   live : ∀ b ∈ l.bs, b.typ ≠ 0
   nodup : (l.bs.map (·.typ)).Nodup
+  hdr_parse : ∃ h : Header, h.nEntries = (l.n : Int) ∧ ∀ rest, Header.dec.run (l.hdr ++ rest) = some (h, rest)
 
 theorem inI32_nat (n : Nat) (h : n < 2147483648) : inI32 (n : Int) = true := by
   simp [inI32]; omega
@@ -165,7 +166,7 @@ theorem add_sim (l : Lay) (ok : l.Ok) (b : BlkArg) (c : Str) (now : Int) (pl : B
     rw [liveEntries_append, dataOf_append]
     simp [liveEntries, liveEntry, newBlock, dataOf, hsz, live, e, eod, start, Nat.add_assoc]
   have hnewOk : (Lay.add l0 b pl c now).Ok := by
-    refine ⟨ok.hdr_len, ?_, ?_, ?_, ?_, ?_, ?_⟩
+    refine ⟨ok.hdr_len, ?_, ?_, ?_, ?_, ?_, ?_, ok.hdr_parse⟩
     · have := ok.count; simp [Lay.add, l0] at this ⊢; omega
     · intro x hx; simp [Lay.add, l0] at hx
       rcases hx with hx | rfl
@@ -309,7 +310,7 @@ theorem remove_sim (l : Lay) (ok : l.Ok) (t : Nat) (now : Int) (pre post : List 
   have hneweod : (Lay.remove l0 t now).eod = eod' := by
     simp [Lay.eod, hnewbs, hnewn, dataOf_append, eod', offx, start]; omega
   have hnewOk : (Lay.remove l0 t now).Ok := by
-    refine ⟨ok.hdr_len, ?_, ?_, ?_, ?_, ?_, ?_⟩
+    refine ⟨ok.hdr_len, ?_, ?_, ?_, ?_, ?_, ?_, ok.hdr_parse⟩
     · have := ok.count; simp [hnewbs, hnewfs, hnewn, l0] at this ⊢; omega
     · rw [hnewbs]; intro b hb; exact ok.blocks_ok b (by simp at hb ⊢; rcases hb with h | h <;> simp [h])
     · rw [hnewfs]; intro f hf; simp at hf
@@ -408,5 +409,302 @@ theorem remove_sim (l : Lay) (ok : l.Ok) (t : Nat) (now : Int) (pre post : List 
   simp only [tbl', List.append_assoc] at htm
   rw [htm, hnewT, himg']
   simp [tbl', List.append_assoc, hnewn]
+
+/-! ### every operation, including the rejected ones -/
+
+/-- what the container needs from a block argument: a real block type, an honest size (C02) and a
+    result that stays below 2 GiB -/
+structure ArgOk (l : Lay) (b : BlkArg) : Prop where
+  typ : b.typ ≠ 0
+  honest : ∀ pl, b.payload = some pl → pl.length = b.size
+  fits : l.eod + b.size < 2147483648
+
+def OpOk (l : Lay) : Op → Prop
+  | .add b _ _ => ArgOk l b
+  | .remove t now => t ≠ 0 ∧ inI32 now = true
+  | .replace b _ now => ArgOk l b ∧ inI32 now = true
+  | .set b now => ArgOk l b ∧ inI32 now = true
+  | .reopen => True
+
+theorem checkArg_payload (b : BlkArg) (c : Str) (now : Int) (pl : Bytes) (h : checkArg b c now = .ok pl) :
+    b.payload = some pl := by
+  unfold checkArg at h
+  cases hp : b.payload with
+  | none => simp [hp] at h
+  | some p =>
+    simp only [hp] at h
+    split at h
+    · injection h with h; rw [h]
+    · cases h
+
+theorem firstUnused_full (l : Lay) (ok : l.Ok) (h : l.fs = []) : firstUnused l.table = none := by
+  unfold firstUnused
+  apply findIdxBy_none
+  intro e he
+  simp only [Lay.table, h, freeEntries, List.map_nil, List.append_nil] at he
+  obtain ⟨b, hb, ht⟩ := liveEntries_typ _ _ e he
+  simp [ht, ok.live b hb]
+
+theorem add_step (l : Lay) (ok : l.Ok) (b : BlkArg) (c : Str) (now : Int) (ha : ArgOk l b) :
+    addBlock l.state b c now = ((l.specStep (.add b c now)).1.state, (l.specStep (.add b c now)).2)
+    ∧ (l.specStep (.add b c now)).1.Ok := by
+  simp only [Lay.specStep]
+  by_cases hd : l.hasType b.typ = true
+  · simp only [hd, if_true]
+    refine ⟨?_, ok⟩
+    unfold addBlock
+    simp [Lay.state, hasType_table l b.typ ha.typ, hd]
+  · have hd' : l.hasType b.typ = false := by simpa using hd
+    simp only [hd', Bool.false_eq_true, if_false]
+    by_cases hf : l.fs = []
+    · simp only [hf, if_true]
+      refine ⟨?_, ok⟩
+      unfold addBlock
+      simp [Lay.state, hasType_table l b.typ ha.typ, hd', firstUnused_full l ok hf]
+    · simp only [hf, if_false]
+      cases hc : checkArg b c now with
+      | error e =>
+        refine ⟨?_, ok⟩
+        unfold addBlock
+        have hfu : ∃ pos, firstUnused l.table = some pos := by
+          cases hfs : l.fs with
+          | nil => exact absurd hfs hf
+          | cons f fs' =>
+            refine ⟨l.bs.length, ?_⟩
+            unfold firstUnused
+            simp only [Lay.table, hfs, freeEntries, List.map_cons]
+            rw [findIdxBy_append_left]
+            · simp [findIdxBy, freeEntry]
+            · intro e he
+              obtain ⟨bb, hb, ht⟩ := liveEntries_typ _ _ e he
+              simp [ht, ok.live bb hb]
+        obtain ⟨pos, hpos⟩ := hfu
+        simp [Lay.state, hasType_table l b.typ ha.typ, hd', hpos, hc]
+      | ok pl =>
+        have := add_sim l ok b c now pl hf hd' ha.typ hc (ha.honest pl (checkArg_payload b c now pl hc)) ha.fits
+        exact ⟨this.1, this.2⟩
+
+theorem split_of_hasType (t : Nat) (bs : List LBlock) (h : bs.any (fun b => b.typ == t) = true) :
+    ∃ pre x post, bs = pre ++ x :: post ∧ x.typ = t ∧ ∀ b ∈ pre, b.typ ≠ t := by
+  induction bs with
+  | nil => simp at h
+  | cons b bs ih =>
+    by_cases hb : b.typ = t
+    · exact ⟨[], b, bs, rfl, hb, by simp⟩
+    · have : bs.any (fun b => b.typ == t) = true := by simpa [hb] using h
+      obtain ⟨pre, x, post, h1, h2, h3⟩ := ih this
+      refine ⟨b :: pre, x, post, by simp [h1], h2, ?_⟩
+      intro y hy; simp at hy
+      rcases hy with rfl | hy
+      · exact hb
+      · exact h3 y hy
+
+theorem remove_step (l : Lay) (ok : l.Ok) (t : Nat) (now : Int) (ht : t ≠ 0) (hnow : inI32 now = true) :
+    removeBlock l.state t now = ((l.specStep (.remove t now)).1.state, (l.specStep (.remove t now)).2)
+    ∧ (l.specStep (.remove t now)).1.Ok := by
+  simp only [Lay.specStep]
+  by_cases hd : l.hasType t = true
+  · simp only [hd, if_true]
+    obtain ⟨pre, x, post, h1, h2, h3⟩ := split_of_hasType t l.bs hd
+    exact remove_sim l ok t now pre post x h1 h2 h3 hnow
+  · have hd' : l.hasType t = false := by simpa using hd
+    simp only [hd', Bool.false_eq_true, if_false]
+    refine ⟨?_, ok⟩
+    unfold removeBlock
+    have : findType t l.table = none := by
+      unfold findType
+      apply findIdxBy_none
+      intro e he
+      have hh := hasType_table l t ht
+      rw [hd'] at hh
+      simp only [hasType, List.any_eq_false] at hh
+      simpa using hh e he
+    simp [Lay.state, this]
+
+theorem find_table_none (s e : Nat) (bs : List LBlock) (fs : List FreeMeta) (t : Nat) (ht : t ≠ 0)
+    (h : bs.find? (fun x => x.typ == t) = none) :
+    (liveEntries s bs ++ freeEntries e fs).find? (fun x => x.typ == t) = none := by
+  rw [List.find?_eq_none] at h ⊢
+  intro x hx
+  simp only [List.mem_append] at hx
+  rcases hx with hx | hx
+  · obtain ⟨b, hb, hty⟩ := liveEntries_typ _ _ x hx
+    rw [hty]; exact h b hb
+  · rw [freeEntries_typ _ _ x hx]; simp; exact fun h' => ht h'.symm
+
+theorem find_table_some (s e : Nat) (bs : List LBlock) (fs : List FreeMeta) (t : Nat) (x : LBlock)
+    (h : bs.find? (fun x => x.typ == t) = some x) :
+    ∃ o, (liveEntries s bs ++ freeEntries e fs).find? (fun x => x.typ == t) = some (liveEntry o x) := by
+  induction bs generalizing s with
+  | nil => simp at h
+  | cons b bs ih =>
+    simp only [List.find?_cons] at h
+    by_cases hb : (b.typ == t) = true
+    · simp only [hb] at h
+      injection h with h; subst h
+      exact ⟨s, by simp [liveEntries, liveEntry, List.find?_cons, hb]⟩
+    · simp only [hb] at h
+      obtain ⟨o, ho⟩ := ih (s + b.payload.length) h
+      refine ⟨o, ?_⟩
+      simp only [Bool.not_eq_true] at hb
+      have hh : ((liveEntry s b).typ == t) = false := by simpa [liveEntry] using hb
+      simp only [liveEntries, List.cons_append, List.find?_cons, hh]
+      exact ho
+
+theorem hasType_iff_find (l : Lay) (t : Nat) :
+    l.hasType t = (l.bs.find? (fun x => x.typ == t)).isSome := by
+  simp only [Lay.hasType]
+  induction l.bs with
+  | nil => rfl
+  | cons b bs ih =>
+    by_cases hb : (b.typ == t) = true
+    · simp [List.find?_cons, hb]
+    · simp only [Bool.not_eq_true] at hb
+      simp [List.find?_cons, hb, ih]
+
+theorem removeType_no_type (t : Nat) (bs : List LBlock) (h : (bs.map (·.typ)).Nodup) :
+    (removeType t bs).any (fun b => b.typ == t) = false := by
+  induction bs with
+  | nil => rfl
+  | cons b bs ih =>
+    simp only [List.map_cons, List.nodup_cons] at h
+    by_cases hb : b.typ = t
+    · simp only [removeType, hb, if_true]
+      apply List.any_eq_false.mpr
+      intro x hx hxt
+      simp at hxt
+      exact h.1 (by rw [hb, ← hxt]; exact List.mem_map_of_mem hx)
+    · simp [removeType, hb, ih h.2]
+
+theorem removeType_data_le (t : Nat) (bs : List LBlock) :
+    (dataOf (removeType t bs)).length ≤ (dataOf bs).length := by
+  induction bs with
+  | nil => simp [removeType]
+  | cons b bs ih =>
+    simp only [removeType]
+    split
+    · simp [dataOf, List.flatMap_cons]
+    · simp only [dataOf, List.flatMap_cons, List.length_append] at ih ⊢; omega
+
+theorem replace_step (l : Lay) (ok : l.Ok) (b : BlkArg) (c : Option Str) (now : Int) (ha : ArgOk l b)
+    (hnow : inI32 now = true) :
+    replaceBlock l.state b c now = ((l.specStep (.replace b c now)).1.state, (l.specStep (.replace b c now)).2)
+    ∧ (l.specStep (.replace b c now)).1.Ok := by
+  simp only [Lay.specStep]
+  cases hf : l.bs.find? (fun x => x.typ == b.typ) with
+  | none =>
+    dsimp only
+    refine ⟨?_, ok⟩
+    unfold replaceBlock
+    have := find_table_none (tableStart l.n) l.eod l.bs l.fs b.typ ha.typ hf
+    simp only [Lay.state]
+    simp only [Lay.table] at this ⊢
+    rw [this]
+  | some x =>
+    obtain ⟨o, ho⟩ := find_table_some (tableStart l.n) l.eod l.bs l.fs b.typ x hf
+    have hcom : (liveEntry o x).comment = x.comment := rfl
+    dsimp only
+    cases hc : checkArg b (c.getD x.comment) now with
+    | error e =>
+      dsimp only
+      refine ⟨?_, ok⟩
+      unfold replaceBlock
+      simp only [Lay.state]
+      simp only [Lay.table] at ho ⊢
+      rw [ho]; simp only [hcom, hc]
+    | ok pl =>
+      dsimp only
+      have hhas : l.hasType b.typ = true := by rw [hasType_iff_find, hf]; rfl
+      obtain ⟨pre, y, post, h1, h2, h3⟩ := split_of_hasType b.typ l.bs hhas
+      have hrem := remove_sim l ok b.typ now pre post y h1 h2 h3 hnow
+      have hno : (l.remove b.typ now).hasType b.typ = false := by
+        simp only [Lay.hasType, Lay.remove]
+        exact removeType_no_type b.typ l.bs ok.nodup
+      have hfit : (l.remove b.typ now).eod + b.size < 2147483648 := by
+        have := removeType_data_le b.typ l.bs
+        have := ha.fits
+        simp only [Lay.eod, Lay.remove] at *
+        omega
+      have hadd := add_sim (l.remove b.typ now) hrem.2 b (c.getD x.comment) now pl (by simp [Lay.remove]) hno ha.typ hc
+        (ha.honest pl (checkArg_payload b _ now pl hc)) hfit
+      refine ⟨?_, hadd.2⟩
+      unfold replaceBlock
+      simp only [Lay.state]
+      simp only [Lay.table] at ho ⊢
+      rw [ho]; simp only [hcom, hc]
+      have hr := hrem.1
+      simp only [Lay.state, Lay.table] at hr
+      rw [hr]
+      exact hadd.1
+
+theorem set_spec (l : Lay) (b : BlkArg) (now : Int) :
+    l.specStep (.set b now) =
+      if l.hasType b.typ then l.specStep (.replace b none now) else l.specStep (.add b defaultComment now) := by
+  simp only [Lay.specStep, hasType_iff_find]
+  cases hf : l.bs.find? (fun x => x.typ == b.typ) with
+  | none => simp [hf]
+  | some x => simp [hf]
+
+theorem set_step (l : Lay) (ok : l.Ok) (b : BlkArg) (now : Int) (ha : ArgOk l b) (hnow : inI32 now = true) :
+    setBlock l.state b now = ((l.specStep (.set b now)).1.state, (l.specStep (.set b now)).2)
+    ∧ (l.specStep (.set b now)).1.Ok := by
+  rw [set_spec]
+  unfold setBlock
+  have : hasType b.typ l.state.entries = l.hasType b.typ := hasType_table l b.typ ha.typ
+  rw [this]
+  by_cases hd : l.hasType b.typ = true
+  · simp only [hd, if_true]; exact replace_step l ok b none now ha hnow
+  · have hd' : l.hasType b.typ = false := by simpa using hd
+    simp only [hd', Bool.false_eq_true, if_false]; exact add_step l ok b defaultComment now ha
+
+/-- reopening: what `__enter__` parses from the disk is exactly the table the object already had -/
+theorem reopen_same (l : Lay) (ok : l.Ok) : openFile l.state.disk = some l.state := by
+  obtain ⟨h, hn, hp⟩ := ok.hdr_parse
+  have hlen : l.table.length = l.n := by simp [Lay.table, ok.count]
+  have hdec : decTable.run l.image = some ((h, l.table), dataOf l.bs) := by
+    unfold decTable Lay.image
+    simp only [D.bind_eq, List.append_assoc]
+    rw [D.bind_run_of _ _ _ _ _ (hp _)]
+    have hneg : ¬ (h.nEntries < 0) := by rw [hn]; omega
+    simp only [hneg, if_false]
+    have : h.nEntries.toNat = l.table.length := by rw [hn, hlen]; simp
+    rw [this]
+    rw [D.bind_run_of _ _ _ _ _ (D.rep_run Entry.dec Entry.enc l.table _ (fun e he r => Entry.dec_enc e (ok.valid e he) r))]
+    rfl
+  unfold openFile
+  simp only [Lay.state, hdec]
+  simp [hn]
+
+theorem step_sim (l : Lay) (ok : l.Ok) (op : Op) (hop : OpOk l op) :
+    step l.state op = ((l.specStep op).1.state, (l.specStep op).2) ∧ (l.specStep op).1.Ok := by
+  cases op with
+  | add b c now => exact add_step l ok b c now hop
+  | remove t now => exact remove_step l ok t now hop.1 hop.2
+  | replace b c now => exact replace_step l ok b c now hop.1 hop.2
+  | set b now => exact set_step l ok b now hop.1 hop.2
+  | reopen =>
+    refine ⟨?_, ok⟩
+    simp [step, reopen_same l ok, Lay.specStep]
+
+def Lay.specRun (l : Lay) : List Op → Lay
+  | [] => l
+  | op :: ops => Lay.specRun (l.specStep op).1 ops
+
+/-- the hypotheses of a history: each operation is acceptable in the state it is applied to -/
+def OpsOk (l : Lay) : List Op → Prop
+  | [] => True
+  | op :: ops => OpOk l op ∧ OpsOk (l.specStep op).1 ops
+
+/-- REFINEMENT: any history on a well-formed layout behaves like the list specification, and ends
+    in a well-formed layout — for every table length n ≥ 0, every number of blocks -/
+theorem run_sim (l : Lay) (ok : l.Ok) (ops : List Op) (hops : OpsOk l ops) :
+    runOps l.state ops = (l.specRun ops).state ∧ (l.specRun ops).Ok := by
+  induction ops generalizing l with
+  | nil => exact ⟨rfl, ok⟩
+  | cons op ops ih =>
+    have hs := step_sim l ok op hops.1
+    simp only [runOps, Lay.specRun]
+    rw [hs.1]
+    exact ih _ hs.2 hops.2
 
 end Tdf
